@@ -383,6 +383,7 @@ pub fn generate(property: &str, tier: &str, seed: u64, index: u64) -> Plan {
         "C05" => c05(property, tier, seed, index),
         "C06" => c06(property, seed),
         "C07" => c07(property, seed),
+        "C08" => c08(property, tier, seed, index),
         "C12" => c12(property, seed, index),
         "C13" => match index % 8 {
             0 => synctest(property, seed, false, true),
@@ -1017,4 +1018,131 @@ pub fn c06(property: &str, seed: u64) -> Plan {
     }
     p.oracle.spectator_stream = true;
     p
+}
+
+// ------------------------------------------------------------------ C08
+
+const SWEEP_CHUNK: u64 = 4096;
+
+pub fn c08_runs(tier: &str) -> u64 {
+    let (sweep, muts, live) = c08_parts(tier);
+    sweep + muts + live
+}
+
+fn c08_parts(tier: &str) -> (u64, u64, u64) {
+    if tier == "thorough" {
+        (crate::sweep::UPTO3.div_ceil(SWEEP_CHUNK), 2000, 150_000)
+    } else {
+        (crate::sweep::UPTO2.div_ceil(SWEEP_CHUNK) + 64, 200, 6000)
+    }
+}
+
+fn c08_shell(property: &str, scenario: &str, seed: u64, mode: Mode) -> Plan {
+    let mut p = synctest(property, seed, false, false);
+    p.scenario = scenario.to_owned();
+    p.mode = mode;
+    p
+}
+
+fn forged_body(c: &Ch, j: u64, np: usize) -> MBody {
+    let conn = |n: usize| (0..n).map(|_| MConn { disconnected: false, last_frame: -1 }).collect::<Vec<_>>();
+    match c.range(&[50, j], 0, 8) {
+        0 => MBody::Input(MInput { peer_connect_status: conn(np), disconnect_requested: true, start_frame: 0, ack_frame: -1, bytes: vec![] }),
+        1 => MBody::InputAck { ack_frame: 1_000_000 },
+        2 => MBody::ChecksumReport { checksum: c.u(&[51, j]) as u128, frame: c.range(&[52, j], 0, 300) as i32 },
+        3 => MBody::QualityReport { frame_advantage: c.range(&[53, j], 0, 60) as i16 - 30, ping: c.range(&[54, j], 0, 1 << 40) as u128 },
+        4 => MBody::QualityReply { pong: 0 },
+        5 => MBody::SyncReply { random_reply: c.u(&[55, j]) as u32 },
+        6 => MBody::SyncRequest { random_request: c.u(&[56, j]) as u32 },
+        7 => MBody::KeepAlive,
+        _ => {
+            // a well-formed input packet with bogus inputs for the coming frames
+            let frames: Vec<Vec<u8>> = (0..4).map(|f| (0..4).map(|b| c.u(&[57, j, f, b]) as u8).collect()).collect();
+            MBody::Input(MInput { peer_connect_status: conn(np), disconnect_requested: false, start_frame: c.range(&[58, j], 0, 200) as i32, ack_frame: c.range(&[59, j], 0, 400) as i32 - 1, bytes: ggrs::verif::encode(&[0, 0, 0, 0], &frames) })
+        }
+    }
+}
+
+fn c08_live(property: &str, seed: u64, index: u64) -> Plan {
+    let c = Ch::new(seed, "c08");
+    let death = index % 5 == 0;
+    let mut p = if death {
+        let mut p = c07(property, seed);
+        p.api.clear();
+        p.oracle.liveness = None;
+        p.scenario = "c08-live-with-death".into();
+        p
+    } else {
+        let mut p = s1(property, "c08-live", seed, &S1Opts { faults: false, max_peers: 3, allow_lockstep: true, frames_lo: 120, frames_hi: 500, long_run_pct: 0, ..Default::default() });
+        for l in p.links.iter_mut() {
+            l.loss_ppm = *c.pick(&[1, l.from as u64, l.to as u64], &[0u32, 0, 20_000, 50_000]);
+        }
+        p
+    };
+    let n = p.nodes.len();
+    let np = p.cfg.num_players;
+    let n_inj = c.range(&[2], 10, 60);
+    for j in 0..n_inj {
+        let to = c.range(&[3, j], 0, n as u64 - 1) as usize;
+        // addresses this node really talks to
+        let partners: Vec<usize> = p.links.iter().filter(|l| l.to == to).map(|l| l.from).collect();
+        if partners.is_empty() {
+            continue;
+        }
+        let real_from = partners[c.range(&[4, j], 0, partners.len() as u64 - 1) as usize] as u16;
+        let at = if c.chance(&[5, j], 200_000) { c.range(&[6, j], 0, ms(400)) } else { c.range(&[7, j], 0, p.horizon_us) };
+        let small = crate::sweep::nth_bytes(c.range(&[8, j], 0, crate::sweep::UPTO3 - 1));
+        let mut random_bytes: Vec<u8> = (0..c.range(&[9, j], 0, 12)).map(|b| c.u(&[10, j, b]) as u8).collect();
+        while crate::sweep::declared_len(&random_bytes).is_some_and(|n| n > crate::alloc::LIMIT as u128) {
+            random_bytes.pop();
+        }
+        let kind = if death { c.range(&[11, j], 6, 8) } else { c.range(&[11, j], 0, 8) };
+        let (from_addr, payload) = match kind {
+            0 => (real_from, Payload::MutateLastInput(InputMutation::StatusCount((np + 1 + c.range(&[12, j], 0, 2) as usize) % (np + 3)))),
+            1 => (real_from, Payload::MutateLastInput(InputMutation::NegativeStart(c.range(&[13, j], 1, 1000) as i32))),
+            2 => (real_from, Payload::MutateLastInput(InputMutation::Bytes(random_bytes))),
+            3 => (real_from, Payload::MutateLastInput(InputMutation::Bytes(small))),
+            4 => (
+                real_from,
+                Payload::MutateLastInput(match c.range(&[14, j], 0, 3) {
+                    0 => InputMutation::FlipBit(c.u(&[15, j]) as u32),
+                    1 => InputMutation::Truncate(c.u(&[16, j]) as u32),
+                    2 => InputMutation::DoubleSize,
+                    _ => InputMutation::WrongSize,
+                }),
+            ),
+            5 => (real_from, Payload::Raw((0..c.range(&[17, j], 0, 40)).map(|b| c.u(&[18, j, b]) as u8).collect())),
+            6 => (real_from, Payload::Msg { magic: MagicSel::Wrong, body: forged_body(&c, j, np) }),
+            7 => (1000 + (j as u16 % 50), Payload::Msg { magic: *c.pick(&[19, j], &[MagicSel::Real, MagicSel::Wrong, MagicSel::Zero]), body: forged_body(&c, j, np) }),
+            _ => (1000 + (j as u16 % 50), Payload::Raw((0..c.range(&[20, j], 0, 40)).map(|b| c.u(&[21, j, b]) as u8).collect())),
+        };
+        // StatusCount must differ from the real count
+        let payload = match payload {
+            Payload::MutateLastInput(InputMutation::StatusCount(k)) if k == np => Payload::MutateLastInput(InputMutation::StatusCount(np + 1)),
+            x => x,
+        };
+        p.injects.push(Inject { at_us: at, to, from_addr, payload });
+    }
+    p.injects.sort_by_key(|i| i.at_us);
+    p
+}
+
+pub fn c08(property: &str, tier: &str, seed: u64, index: u64) -> Plan {
+    let (sweep, muts, _) = c08_parts(tier);
+    let full = crate::sweep::UPTO2.div_ceil(SWEEP_CHUNK);
+    if index < sweep {
+        let (start, count) = if tier == "thorough" || index < full {
+            let start = index * SWEEP_CHUNK;
+            (start, SWEEP_CHUNK.min(if tier == "thorough" { crate::sweep::UPTO3 } else { crate::sweep::UPTO2 } - start))
+        } else {
+            // seeded chunks of the three-byte space
+            let chunks3 = (crate::sweep::UPTO3 - crate::sweep::UPTO2) / SWEEP_CHUNK;
+            (crate::sweep::UPTO2 + (mix(seed) % chunks3) * SWEEP_CHUNK, SWEEP_CHUNK)
+        };
+        return c08_shell(property, "c08-payload-sweep", seed, Mode::DecodeSweep { start, count });
+    }
+    if index < sweep + muts {
+        return c08_shell(property, "c08-payload-mutations", seed, Mode::DecodeMutations { count: 5000 });
+    }
+    c08_live(property, seed, index)
 }
